@@ -60,9 +60,13 @@ class Engine(Interp):
             n[0] += 1
             return Term('%s.%d' % (tag, n[0]))
 
+        first_alias = {}
+
         def pos(x):
             c = new()
             pairs.append((c, x))
+            if isinstance(x, Term) and x not in first_alias:
+                first_alias[x] = c
             return c
 
         def anyterm(t):
@@ -151,6 +155,9 @@ class Engine(Interp):
             if ms.asked is not None:
                 ms.asked = tuple((pos(lo), pos(hi)) for lo, hi in ms.asked)
                 ms.asked_carry = None
+        for k in sorted(s2.ghost, key=str):
+            g = s2.ghost[k]
+            s2.ghost[k] = (pos(g[0]), g[1])
         for k in sorted(s2.pairs, key=str):
             pv = s2.pairs[k]
             if pv is not None:
@@ -159,6 +166,8 @@ class Engine(Interp):
         # persistent entry-state terms) is projected away
         s2.zone = s2.zone.remap(pairs, is_persistent)
         shape = self.shape_of(s2)
+        first_alias.update({t: c for t, c in memo_any.items() if t not in first_alias})
+        self.last_alias = first_alias
         return shape, s2
 
     def shape_of(self, st):
@@ -169,7 +178,8 @@ class Engine(Interp):
             ms = st.maps[mid]
             mp.append((mid, ms.len, ms.cap, ms.holes, ms.extras, ms.hole_rng, ms.extra_rng, ms.contents,
                        ms.exempt, ms.dead, ms.owned_extras, ms.examined, ms.pending, ms.asked))
-        return (fr, ob, tuple(mp), st.unwinding, tuple(sorted(st.pairs.items(), key=str)))
+        return (fr, ob, tuple(mp), st.unwinding, tuple(sorted(st.pairs.items(), key=str)),
+                tuple(sorted(((k, g[1]) for k, g in st.ghost.items()), key=str)))
 
     def loop_join(self, table, key, st):
         """at a loop head: returns the state to continue with, or None when subsumed"""
@@ -180,6 +190,12 @@ class Engine(Interp):
         else:
             depth = len(st.loops)
             st.loops = st.loops + (key,)
+        if not table.get(key) and key in st.ghost:
+            # a new activation of this loop: the ghost counter of the previous one is final
+            n = 0
+            while (key, 'done', n) in st.ghost:
+                n += 1
+            st.ghost[(key, 'done', n)] = st.ghost.pop(key)
         if hook is not None and not st.unwinding and table.get(key):
             # (a non-empty table entry: this activation of the loop has been through its head before)
             ev = st.events
@@ -208,6 +224,12 @@ class Engine(Interp):
             if len(entries) > 40:
                 self.violate('SHAPE', 'unproven', 'loop', 'too many distinct abstract shapes at a loop head')
                 return None
+            # the log keeps speaking about the same quantities: terms that live on under a canonical name are
+            # renamed in the events as well (terms that are not live any more stay as they are: unknown to the zone)
+            am = self.last_alias
+            if am:
+                from .state import map_terms
+                st.events = tuple(map_terms(e, lambda t: am.get(t, t)) for e in st.events)
             entries[shape] = {'zone': st.zone.copy(), 'count': 0, 'events': st.events + (('loop', key),)}
             st.events = entries[shape]['events']
             self.last_shape = shape
@@ -560,7 +582,8 @@ class Engine(Interp):
         if m is None and callee['resolved'] == 'unresolved':
             m = self.models.get('?' + callee['def'])
         if m is None and callee.get('rcrate') == 'core' and callee.get('trait') == ITER_TRAIT \
-                and name.startswith('<core::slice::iter::Iter'):
+                and (name.startswith('<core::slice::iter::Iter')
+                     or (callee.get('rimpl_self') or {}).get('path') in self.models_mod.ADAPTER_NEXT):
             # core's slice iterators override provided Iterator methods with equivalent specialisations
             m = self.models.get(callee['def'])
         if m is not None:
